@@ -1,4 +1,4 @@
-// Synchronisation-event traces of the real code (C06–C09, C14: model-mode correspondence at the level of
+// Synchronisation-event traces of the real code (C06–C14: model-mode correspondence at the level of
 // single lock / semaphore / atomic / channel actions).
 //
 // This harness is built against a scratch copy of the repository that harness/evinst has instrumented:
@@ -21,20 +21,20 @@
 // model's state (a Lock only when the lock is free, an Acquire only when a permit is free, a receive only
 // from a closed generation, …), white-box snapshots taken inside critical sections must equal the model's
 // state, and the results of the calls must be the model's.  In spec mode nothing is decided here.
+//
+// One file per target (target_<name>.go) registers: how scenario lines are generated and how a scenario is
+// run.  The event log lives in the instrumented package (queue.VerifEv…, syncx.VerifEv…).
 package main
 
 import (
-	"context"
 	"encoding/json"
 	"flag"
 	"fmt"
 	"os"
+	"sort"
 	"strconv"
 	"strings"
-	"sync"
-	"time"
 
-	"github.com/ecodeclub/ekit/queue"
 	"github.com/ecodeclub/ekit/zzverif/vlib"
 )
 
@@ -48,6 +48,28 @@ type stats struct {
 	MaxEvents int            `json:"max_events_per_scenario"`
 }
 
+// evlog is the log API of one instrumented package
+type evlog struct {
+	Instrumented func() bool
+	Start        func()
+	Stop         func() []string
+	Tid          func(int)
+	Note         func(string)
+}
+
+// target: one modelled object
+type target struct {
+	name   string
+	log    evlog
+	corpus []string                                 // scenario lines ("new evt <name> k=v …") that always run first
+	gen    func(r *vlib.Rng) string                 // one random scenario line (without the "new evt <name> " prefix)
+	run    func(w []string, seed uint64, log evlog) // executes one scenario (w = fields of the line); panics are caught
+}
+
+var targets = map[string]*target{}
+
+func register(t *target) { targets[t.name] = t }
+
 func kv(w []string, k string) int {
 	for _, x := range w {
 		if strings.HasPrefix(x, k+"=") {
@@ -58,52 +80,13 @@ func kv(w []string, k string) int {
 	return 0
 }
 
-func gen(tier string, targets []string, out *vlib.Out) {
-	want := map[string]bool{}
-	for _, t := range targets {
-		want[t] = true
-	}
-	r := vlib.NewRng(vlib.Seed())
-	n := 120
-	if tier == "thorough" {
-		n = 1200
-	}
-	// corpus: the shapes the models distinguish (full / empty / wrap-around / cancelled before, during, after)
-	for _, l := range []string{
-		"new evt abq cap=1 g=2 calls=4 seed=1",
-		"new evt abq cap=2 g=4 calls=5 seed=2",
-		"new evt abq cap=3 g=3 calls=8 seed=3",
-		"new evt lbq cap=1 g=2 calls=4 seed=4",
-		"new evt lbq cap=2 g=4 calls=5 seed=5",
-		"new evt lbq cap=0 g=3 calls=6 seed=6",
-	} {
-		if want[strings.Fields(l)[2]] {
-			out.Line("%s", l)
+func kvs(w []string, k string) string {
+	for _, x := range w {
+		if strings.HasPrefix(x, k+"=") {
+			return x[len(k)+1:]
 		}
 	}
-	var bqs []string
-	for _, t := range []string{"abq", "lbq"} {
-		if want[t] {
-			bqs = append(bqs, t)
-		}
-	}
-	for i := 0; i < n && len(bqs) > 0; i++ {
-		tgt := vlib.Pick(r, bqs)
-		c := vlib.Pick(r, []int{1, 1, 2, 2, 3, 4})
-		if tgt == "lbq" && r.Chance(20) {
-			c = vlib.Pick(r, []int{0, -1})
-		}
-		out.Line("new evt %s cap=%d g=%d calls=%d seed=%d", tgt, c, vlib.Pick(r, []int{1, 2, 2, 3, 3, 4}),
-			vlib.Pick(r, []int{2, 3, 4, 6, 8}), r.Intn(1<<30))
-	}
-}
-
-// bq is what both blocking queues offer
-type bq interface {
-	Enqueue(ctx context.Context, t int) error
-	Dequeue(ctx context.Context) (int, error)
-	Len() int
-	AsSlice() []int
+	return ""
 }
 
 func ints(xs []int) string {
@@ -117,68 +100,29 @@ func ints(xs []int) string {
 	return strings.Join(s, ",")
 }
 
-func errTok(err error) string {
-	switch {
-	case err == nil:
-		return "ok"
-	case err == context.Canceled || err == context.DeadlineExceeded:
-		return "ctxErr"
+func gen(tier string, names []string, out *vlib.Out) {
+	r := vlib.NewRng(vlib.Seed())
+	n := 120
+	if tier == "thorough" {
+		n = 1200
 	}
-	return "err"
-}
-
-// runBQ: g goroutines, `calls` calls each; blocking calls always carry a deadline so a scenario ends.
-func runBQ(q bq, g, calls int, seed uint64) {
-	var wg sync.WaitGroup
-	start := make(chan struct{})
-	for t := 0; t < g; t++ {
-		wg.Add(1)
-		go func(t int) {
-			defer wg.Done()
-			queue.VerifEvTid(t)
-			r := vlib.NewRng(seed*7919 + uint64(t))
-			<-start
-			for i := 0; i < calls; i++ {
-				ctx, cancel := context.Background(), context.CancelFunc(func() {})
-				kind := "to"
-				switch p := r.Intn(100); {
-				case p < 12: // cancelled before the call
-					ctx, cancel = context.WithCancel(ctx)
-					cancel()
-					kind = "pre"
-				case p < 30: // expires very soon: lands at an arbitrary point of the call
-					ctx, cancel = context.WithTimeout(ctx, time.Duration(1+r.Intn(60))*time.Microsecond)
-					kind = "soon"
-				default:
-					ctx, cancel = context.WithTimeout(ctx, time.Duration(1+r.Intn(4))*time.Millisecond)
-				}
-				switch p := r.Intn(100); {
-				case p < 42:
-					v := (t+1)*1000 + i
-					queue.VerifEvNote(fmt.Sprintf("inv enq %d %s", v, kind))
-					err := q.Enqueue(ctx, v)
-					queue.VerifEvNote("res " + errTok(err))
-				case p < 84:
-					queue.VerifEvNote("inv deq " + kind)
-					v, err := q.Dequeue(ctx)
-					if err == nil {
-						queue.VerifEvNote("res val " + strconv.Itoa(v))
-					} else {
-						queue.VerifEvNote("res " + errTok(err))
-					}
-				case p < 92:
-					queue.VerifEvNote("inv len")
-					queue.VerifEvNote("res n " + strconv.Itoa(q.Len()))
-				default:
-					queue.VerifEvNote("inv asslice")
-					queue.VerifEvNote("res slice " + ints(q.AsSlice()))
-				}
-				cancel()
-			}
-		}(t)
+	var ts []*target
+	sort.Strings(names)
+	for _, nm := range names {
+		t := targets[nm]
+		if t == nil {
+			fmt.Fprintln(os.Stderr, "evtrace: unknown target", nm)
+			os.Exit(2)
+		}
+		ts = append(ts, t)
+		for _, l := range t.corpus {
+			out.Line("%s", l)
+		}
 	}
-	close(start)
-	wg.Wait()
+	for i := 0; i < n && len(ts) > 0; i++ {
+		t := vlib.Pick(r, ts)
+		out.Line("new evt %s %s seed=%d", t.name, t.gen(r), r.Intn(1<<30))
+	}
 }
 
 func run(ops []string, out *vlib.Out, st *stats) {
@@ -187,34 +131,30 @@ func run(ops []string, out *vlib.Out, st *stats) {
 		if len(w) < 3 || w[0] != "new" || w[1] != "evt" {
 			continue // event lines of an earlier trace (shrinking feeds them back): only scenarios are executed
 		}
+		t := targets[w[2]]
+		if t == nil {
+			out.Line("%s => bad-target", line)
+			continue
+		}
 		st.Cases++
 		st.Targets[w[2]]++
-		c, g, calls := kv(w, "cap"), kv(w, "g"), kv(w, "calls")
 		seed := uint64(kv(w, "seed")) ^ vlib.Seed()<<20
 		var events []string
 		p := vlib.Catch(func() {
-			var q bq
-			switch w[2] {
-			case "abq":
-				q = queue.NewConcurrentArrayBlockingQueue[int](c)
-			case "lbq":
-				q = queue.NewConcurrentLinkedBlockingQueue[int](c)
-			default:
-				panic("target " + w[2])
-			}
-			queue.VerifEvStart()
-			runBQ(q, g, calls, seed)
-			events = queue.VerifEvStop()
+			t.log.Start()
+			t.run(w, seed, t.log)
+			events = t.log.Stop()
 		})
 		if p != "" {
+			t.log.Stop()
 			out.Line("%s => %s", line, p)
 			continue
 		}
-		out.Line("%s => ok instrumented=%v", line, queue.VerifEvInstrumented())
+		out.Line("%s => ok instrumented=%v", line, t.log.Instrumented())
 		for _, e := range events {
 			f := strings.SplitN(e, " ", 3) // tid, site, result
 			res := "-"
-			if len(f) == 3 && !strings.HasPrefix(f[1], "inv") && !strings.HasPrefix(f[1], "res") {
+			if len(f) == 3 && f[1] != "inv" && f[1] != "res" {
 				res = f[2]
 				e = f[0] + " " + f[1]
 			}
@@ -242,13 +182,13 @@ func main() {
 	opsPath := flag.String("ops", "", "ops file (run)")
 	outPath := flag.String("out", "", "output file")
 	statsPath := flag.String("stats", "", "stats json (run)")
-	targets := flag.String("targets", "abq,lbq", "gen: comma separated targets")
+	names := flag.String("targets", "abq,lbq", "gen: comma separated targets")
 	flag.Parse()
 	out := vlib.Create(*outPath)
 	defer out.Close()
 	switch *mode {
 	case "gen":
-		gen(*tier, strings.Split(*targets, ","), out)
+		gen(*tier, strings.Split(*names, ","), out)
 	case "run":
 		st := &stats{Targets: map[string]int{}, Events: map[string]int{}, Results: map[string]int{}}
 		run(vlib.ReadLines(*opsPath), out, st)
